@@ -90,6 +90,40 @@ fn census(v: &J, m: &mut BTreeMap<String, i64>) {
   }
 }
 
+// `x.a` at the very end of an element / an identifier at the very beginning of the next one (comma-swizzle class)
+fn last_is_dot(v: &J) -> bool {
+  match v {
+    J::Object(o) if o.len() == 1 => {
+      let (k, x) = o.iter().next().unwrap();
+      match k.as_str() {
+        "Slice" => x.get("subscript").and_then(|s| s.as_array()).and_then(|a| a.last()).map(|l| l.get("Dot").is_some()).unwrap_or(false),
+        "Formula" | "Expression" | "Negate" | "Not" => last_is_dot(x),
+        "Term" => x.get("rhs").and_then(|r| r.as_array()).and_then(|a| a.last()).and_then(|p| p.as_array()).and_then(|p| p.last()).map(last_is_dot).unwrap_or(false),
+        "Range" => x.get("terminal").map(last_is_dot).unwrap_or(false),
+        _ => false,
+      }
+    }
+    _ => false,
+  }
+}
+fn first_is_ident(v: &J) -> bool {
+  match v {
+    J::Object(o) if o.len() == 1 => {
+      let (k, x) = o.iter().next().unwrap();
+      match k.as_str() {
+        "Var" | "Slice" | "FunctionCall" => true,
+        "Literal" => x.get("Boolean").is_some() || x.get("TypedLiteral").and_then(|t| t.as_array()).and_then(|a| a.first()).map(|l| l.get("Boolean").is_some()).unwrap_or(false),
+        "Formula" | "Expression" | "Transpose" => first_is_ident(x),
+        "Term" => x.get("lhs").map(first_is_ident).unwrap_or(false),
+        "Range" => x.get("start").map(first_is_ident).unwrap_or(false),
+        _ => false,
+      }
+    }
+    _ => false,
+  }
+}
+fn adjacent_swizzle(a: &Vec<J>) -> bool { (1..a.len()).any(|i| last_is_dot(&a[i - 1]) && first_is_ident(&a[i])) }
+
 fn features(v: &J, f: &mut BTreeSet<String>) {
   match v {
     J::Object(o) => {
@@ -114,9 +148,19 @@ fn features(v: &J, f: &mut BTreeSet<String>) {
           ("Map", J::Object(mo)) => { if let Some(J::Array(e)) = mo.get("elements") { if e.is_empty() { f.insert("empty-map".into()); } } }
           ("Record", J::Array(_)) => { f.insert("kind-record".into()); }
           ("Table", J::Array(_)) => { f.insert("kind-table".into()); }
-          ("Table", J::Object(to)) => { if to.contains_key("header") { f.insert("table-literal".into()); } else { f.insert("md-table".into()); } }
+          ("Table", J::Object(to)) => { if to.contains_key("alignment") { f.insert("md-table".into()); } else if to.contains_key("header") { f.insert("table-literal".into()); } }
+          ("Hyperlink", J::Array(h)) => {
+            // raw hyperlink: the link text is the URL itself
+            if h.len() == 2 {
+              let url = h[1].as_str().map(|s| s.splitn(2, ':').nth(1).unwrap_or("").to_string()).unwrap_or_default();
+              let mut txt = String::new();
+              if let Some(J::Array(els)) = h[0].get("elements") { for e in els { if let Some(J::String(t)) = e.get("Text") { txt.push_str(t.splitn(2, ':').nth(1).unwrap_or("")); } } }
+              if !url.is_empty() && txt == url { f.insert("raw-hyperlink".into()); }
+            }
+          }
           ("TupleStruct", J::Object(to)) => { if to.contains_key("value") { f.insert("tuple-struct-value".into()); } }
-          ("Tuple", J::Object(to)) => { if let Some(J::Array(e)) = to.get("elements") { if e.len() == 1 { f.insert("tuple1".into()); } if e.is_empty() { f.insert("tuple0".into()); } } }
+          ("Bracket", J::Array(subs)) => { if adjacent_swizzle(subs) { f.insert("comma-swizzle".into()); } }
+          ("Tuple", J::Object(to)) => { if let Some(J::Array(e)) = to.get("elements") { if adjacent_swizzle(e) { f.insert("comma-swizzle".into()); } if e.len() == 1 { f.insert("tuple1".into()); } if e.is_empty() { f.insert("tuple0".into()); } } }
           ("MechCode", J::Array(items)) | ("code", J::Array(items)) => {
             for it in items { if let J::Array(p) = it { if p.len() == 2 && !p[1].is_null() { f.insert("trailing-comment".into()); } } }
             if items.len() >= 2 { f.insert("multi-statement".into()); }
